@@ -20,11 +20,17 @@ type c13Case struct {
 	Mode  string       `json:"mode"`
 	B     int          `json:"b"`
 	Fault int          `json:"fault"` // index of the storage call that fails; -1: none
+	// Dirty: the failing read returns what it had read next to the error
+	Dirty bool `json:"fault_with_data,omitempty"`
 	Rej   bool         `json:"expect_rejected,omitempty"`
 }
 
 func (c *c13Case) text() string {
-	return fmt.Sprintf("%s | fault@%d mode=%s B=%d store=%s", c.Stmt, c.Fault, c.Mode, c.B, store.CanonPairs(c.Store))
+	d := ""
+	if c.Dirty {
+		d = "+data"
+	}
+	return fmt.Sprintf("%s | fault@%d%s mode=%s B=%d store=%s", c.Stmt, c.Fault, d, c.Mode, c.B, store.CanonPairs(c.Store))
 }
 
 type c13 struct{}
@@ -163,9 +169,10 @@ func (c13) RunUnit(t core.Tier, u int, r *core.Reporter) {
 					r.Case(base.text(), false, status)
 					r.Count("fault_free_runs", 1)
 				}
-				for i := 0; i < n; i++ {
+				for i := 0; i < 2*n; i++ {
 					c := base
-					c.Fault = i
+					c.Fault = i % n
+					c.Dirty = i >= n
 					if !r.Begin(func() *core.Failure {
 						return &core.Failure{Property: "C13", Leg: "fault-surfaces", Case: c.text(), Data: core.MustJSON(c)}
 					}) {
@@ -178,7 +185,7 @@ func (c13) RunUnit(t core.Tier, u int, r *core.Reporter) {
 						r.Fail(*f)
 					}
 					r.Case(c.text(), true, status)
-					r.Observed(fmt.Sprintf("%s|%s|%s|%d", sm.q, mode, status, i))
+					r.Observed(fmt.Sprintf("%s|%s|%s|%d", sm.q, mode, status, i%n))
 					r.Count("faults_injected", 1)
 				}
 			}
@@ -194,6 +201,7 @@ func isSelect(q string) bool {
 func c13Judge(c *c13Case) (f *core.Failure, calls int, status string) {
 	st := store.New(c.Store)
 	st.FaultAt = c.Fault
+	st.FaultWithData = c.Dirty
 	out := drv.Run(c.Stmt, st, drv.Opt{Mode: c.Mode, B: c.B, ExtraPoll: 0})
 	calls = len(st.Log)
 	var logs []string
